@@ -105,6 +105,58 @@ func c18RunAccessor() eng.Result {
 			}
 		}
 	}
+	c18RootList(&res)
 	res.Outcomes = []string{"accessor-struct"}
 	return res
+}
+
+// c18RootList: the list is served by nodeutil.ReflectList given directly by a hand-written parent node
+// (the shape of testdata/bird.go), over a Go map and over a Go slice. Deleting every entry in turn
+// must not crash; for the map, which the node shares with its owner, exactly that entry is gone.
+func c18RootList(res *eng.Result) {
+	m := model.SharedSchema("base")
+	type row struct {
+		K string
+		V int
+		W string
+	}
+	for _, layout := range []string{"map", "slice"} {
+		for _, victim := range []string{"a", "b", "c"} {
+			rows := map[string]*row{"a": {K: "a", V: 1}, "b": {K: "b", V: 2}, "c": {K: "c", V: 3}}
+			var list interface{} = rows
+			if layout == "slice" {
+				list = []*row{rows["a"], rows["b"], rows["c"]}
+			}
+			root := &nodeutil.Basic{OnChild: func(r node.ChildRequest) (node.Node, error) {
+				if r.Meta.Ident() == "l" {
+					return nodeutil.ReflectList(list), nil
+				}
+				return nil, nil
+			}}
+			b := node.NewBrowser(m, root)
+			var err error
+			fr, msg, pan := eng.Recover(func() {
+				var sel *node.Selection
+				if sel, err = b.Root().Find("l=" + victim); err == nil && sel != nil {
+					err = sel.Delete()
+				} else if err == nil {
+					err = fmt.Errorf("harness: entry %s not found", victim)
+				}
+			})
+			res.Evals++
+			res.Nontriv++
+			res.States++
+			site := "C18/reflect-list-given-by-parent/" + layout + "/delete-entry"
+			switch {
+			case pan:
+				res.Add(site+"/panic:"+fr, fmt.Sprintf("Delete of l=%s: %s", victim, msg))
+			case err != nil:
+				res.Add(site+"/error-on-valid", err.Error())
+			case layout == "map":
+				if _, still := rows[victim]; still || len(rows) != 2 {
+					res.Add(site+"/wrong-result", fmt.Sprintf("after Delete of l=%s the map holds %d entries", victim, len(rows)))
+				}
+			}
+		}
+	}
 }
